@@ -8,7 +8,7 @@
 use qbice_verif_rt::parking_lot;
 
 use std::{
-    collections::{BinaryHeap, HashSet},
+    collections::HashSet,
     hash::Hash,
     ops::Not,
     sync::{
@@ -122,14 +122,15 @@ enum ConcurrentLogMessage<V> {
 
 #[derive(Debug)]
 struct ConcurrentLog<V> {
-    log: RwLock<BinaryHeap<VersionedOperation<V>>>,
+    // operations in the order they were issued (oldest first)
+    log: RwLock<Vec<VersionedOperation<V>>>,
     deferred_messages: SegQueue<ConcurrentLogMessage<V>>,
 }
 
 impl<V: Eq + Hash + Clone> ConcurrentLog<V> {
     const fn new() -> Self {
         Self {
-            log: RwLock::new(BinaryHeap::new()),
+            log: RwLock::new(Vec::new()),
             deferred_messages: SegQueue::new(),
         }
     }
@@ -147,18 +148,13 @@ impl<V: Eq + Hash + Clone> ConcurrentLog<V> {
     }
 
     fn apply_message_to_heap(
-        heap_lock: &mut BinaryHeap<VersionedOperation<V>>,
+        heap_lock: &mut Vec<VersionedOperation<V>>,
         op: ConcurrentLogMessage<V>,
     ) {
         match op {
             ConcurrentLogMessage::FlushUpTo(epoch) => {
-                while let Some(peek) = heap_lock.peek() {
-                    if peek.epoch <= epoch {
-                        heap_lock.pop();
-                    } else {
-                        break;
-                    }
-                }
+                // everything up to (and including) `epoch` is durable now
+                heap_lock.retain(|x| x.epoch > epoch);
             }
             ConcurrentLogMessage::AppendOperation(op) => {
                 heap_lock.push(op);
@@ -167,7 +163,7 @@ impl<V: Eq + Hash + Clone> ConcurrentLog<V> {
     }
 
     fn fix(
-        heap_lock: &mut BinaryHeap<VersionedOperation<V>>,
+        heap_lock: &mut Vec<VersionedOperation<V>>,
         message_queue: &SegQueue<ConcurrentLogMessage<V>>,
     ) {
         while let Some(message) = message_queue.pop() {
@@ -184,17 +180,16 @@ impl<V: Eq + Hash + Clone> ConcurrentLog<V> {
         let mut added = HashSet::with_hasher(FxBuildHasher::default());
         let mut removed = HashSet::with_hasher(FxBuildHasher::default());
 
+        // the log is in issue order: the last operation on an element wins
         for op in log.iter() {
             match &op.op {
                 Operation::Insert(v) => {
-                    if removed.remove(v).not() {
-                        added.insert(v.clone());
-                    }
+                    removed.remove(v);
+                    added.insert(v.clone());
                 }
                 Operation::Remove(v) => {
-                    if added.remove(v).not() {
-                        removed.insert(v.clone());
-                    }
+                    added.remove(v);
+                    removed.insert(v.clone());
                 }
             }
         }
